@@ -10,7 +10,7 @@ use crate::exch::{ExchCfg, Gate, Menu};
 use crate::exch_run::{replay_exchange, run_exchanges};
 use crate::gen::*;
 
-pub const RULE: &str = "exchanges = request menu (method, version, framing none/Content-Length/default chunked/explicit chunked, Expect, Connection: close, despite-method) x server menu (optional interim 100 / silent server / refusal, final status {200,204,304,404,301,302,307,403}, version, body none/CL 0/CL n/chunked 1-2 chunks with extension and trailers/close-delimited, Connection: close, trailing bytes of a next response; a non-3xx with Location; both framing headers; a 40-field head; empty-valued fields ahead of Connection / Location; chunk-size lines of exactly 20 bytes) x boundary stopping {off,on}, plus 25 000-byte request bodies with several chunks per write; per exchange the COMPLETE graph of states (full flow fingerprint, consumed, arrived, body cursor, observations) under: head write with every buffer size 0..=|head|+1, body writes with inputs {1,2,rest} x buffers {0,1,5,6,7,8,11,12,large} and direct-write reports, 1-byte arrivals (every window the caller can ever present), try_read_100 / give-up / try_response / read with buffers {0,1,2,3,4,large} at every window, proceed whenever ready; queries and readiness-vs-proceed checked in every state; every final state must show the same observation and the reference verdict; every state must be able to reach the end. distinct = distinct (exchange, final observation) pairs";
+pub const RULE: &str = "exchanges = request menu (method, version, framing none/Content-Length/default chunked/explicit chunked, Expect, Connection: close, despite-method) x server menu (optional interim 100 / silent server / refusal, final status {200,204,304,404,301,302,307,403}, version, body none/CL 0/CL n/chunked 1-2 chunks with extension and trailers/close-delimited, Connection: close, trailing bytes of a next response; a non-3xx with Location; both framing headers; a 40-field head; empty-valued fields ahead of Connection / Location; chunk-size lines of exactly 20 bytes) x boundary stopping {off,on}, plus 25 000-byte request bodies with several chunks per write; per exchange the COMPLETE graph of states (full flow fingerprint, consumed, arrived, body cursor, observations) under: head write with every buffer size 0..=|head|+1, body writes with inputs {1,2,rest} x buffers {0,1,5,6,7,8,11,12,large} and direct-write reports, 1-byte arrivals (every window the caller can ever present), try_read_100 / give-up / try_response / read with buffers {0,1,2,3,4,large} at every window, proceed whenever ready; queries and readiness-vs-proceed checked in every state; every final state must show the same observation and the reference verdict; every state must be able to reach the end; plus interleaving: for all 49 ordered pairs of seven exchanges, two flows driven alternately on one thread along a fine-grained schedule - every (i, j): first flow i steps, second j steps, first to its end, second to its end - under the same oracles (no state shared between objects). distinct = distinct (exchange, final observation) pairs";
 
 const MANY_FIELDS: [(&str, &str); 40] = [
     ("X-Info-0", "a"), ("X-Info-1", "b"), ("X-Info-2", "c"), ("X-Info-3", "d"), ("X-Info-4", "e"), ("X-Info-5", "f"), ("X-Info-6", "g"), ("X-Info-7", "h"),
@@ -213,6 +213,44 @@ pub fn build(tier: Tier) -> Vec<Arc<ExchCfg>> {
     out
 }
 
+
+// ------------------------------------------------------------------------------------------
+// Interleaved exchanges: two flows driven alternately on ONE thread. Whatever one flow does between
+// two calls of the other must not matter (no state shared between objects: caches, scratch buffers
+// or parsed values kept at module scope). For every ordered pair (X, Y) of a small menu and every
+// (i, j): X runs i steps of the fine-grained canonical schedule, Y runs j steps, X runs to its end,
+// Y runs to its end - all context-bounded interleavings with three switches; every step under the
+// full oracles of the exchange model.
+
+fn pair_menu() -> Vec<Arc<ExchCfg>> {
+    let next = b"HTTP/1.1 200 OK\r\nContent-Length: 0\r\n\r\n".to_vec();
+    let ch = BodySpec::Chunked { chunks: vec![b"hello".to_vec(), b"wo".to_vec()], ext: true, trailers: 1 };
+    let mut v = Vec::new();
+    let mut add = |r: ReqSpec, fm: crate::driver::RespMsg, interim: bool, trailing: Vec<u8>| {
+        let mut menu = Menu::default_large();
+        menu.allow_giveup = true;
+        let srv = server(fm, if interim { Some(interim_100("1.1", "Continue")) } else { None }, Gate::AfterBody);
+        v.push(Arc::new(ExchCfg::new("C01", r.cfg.clone(), r.body.clone(), srv, trailing, menu).expect("cfg")));
+    };
+    add(req("GET", "1.1", ReqFraming::Default, 0, false, false, false), final_msg("GET", "1.1", 200, &[("X-A", "1")], &BodySpec::Length(b"abc".to_vec())), false, next.clone());
+    add(req("POST", "1.1", ReqFraming::Default, 11, true, false, false), final_msg("POST", "1.1", 200, &[], &ch), true, next.clone());
+    add(req("POST", "1.1", ReqFraming::Length(3), 3, false, false, false), final_msg("POST", "1.1", 302, &[("Location", "/elsewhere")], &BodySpec::Length(vec![])), false, next.clone());
+    add(req("HEAD", "1.1", ReqFraming::Default, 0, false, false, false), final_msg("HEAD", "1.1", 200, &[("Content-Type", "text/x")], &BodySpec::Length(b"hello".to_vec())), false, next.clone());
+    add(req("GET", "1.0", ReqFraming::Default, 0, false, false, false), final_msg("GET", "1.0", 200, &[], &BodySpec::NoHeader(b"bye bye".to_vec())), false, vec![]);
+    add(req("PUT", "1.1", ReqFraming::Length(20), 20, false, true, false), final_msg("PUT", "1.1", 204, &[("Connection", "close")], &BodySpec::NoHeader(vec![])), false, next.clone());
+    // the shortest possible head in front of a close-delimited body without any line feed
+    {
+        let mut fm = final_msg("GET", "1.1", 200, &[], &BodySpec::NoHeader(b"0123456789abcdefghijklmnopqrstuvwxyz".to_vec()));
+        fm.reason = "OK".into();
+        add(req("GET", "1.1", ReqFraming::Default, 0, false, false, false), fm, false, vec![]);
+    }
+    v
+}
+
+fn interleaved_pairs(rep: &mut Report) {
+    crate::exch_run::run_interleaved("C01", pair_menu(), rep);
+}
+
 fn describe(c: &ExchCfg) -> Value {
     c.to_json()
 }
@@ -223,10 +261,16 @@ pub fn run(tier: Tier) -> Report {
     let mut rep = run_exchanges(cfgs, &lim, true, describe);
     let fs = rep.extra.get("final_states").and_then(|v| v.as_u64()).unwrap_or(0);
     rep.guard("final states reached", fs > 0);
+    interleaved_pairs(&mut rep);
     rep
 }
 
 pub fn replay(v: &Value) -> Result<Option<String>, String> {
+    if v["kind"].as_str() == Some("interleaved") {
+        let mut r = Report::new();
+        interleaved_pairs(&mut r);
+        return Ok(r.violations.into_iter().next().map(|(k, (_, v))| format!("[{}] {}", k, v.what)));
+    }
     let tier = if v["tier"].as_str() == Some("thorough") { Tier::Thorough } else { Tier::Quick };
     let cfgs = build(tier);
     let i = v["cfg_index"].as_u64().ok_or("cfg_index")? as usize;
